@@ -406,18 +406,18 @@ class ServerTranslator:
             return self.try_stmt(s, rest, env, ind)
         fail(s, 'statement')
 
-    def aux_def(self, kind, body, env, cond, index=None):
+    def aux_def(self, kind, body, env, cond, index=None, index_type='nat'):
         """the body (and test) of a loop as definitions of their own, so that the proofs can name them"""
         self.nloops += 1
         k = self.nloops
-        e2 = env.with_bound(index, index, 'nat') if index else env
+        e2 = env.with_bound(index, index, index_type) if index else env
         text = self.block(body, e2, 4)
         params = ''.join(f' ({v} : {t})' for v, t in env.vars.items())
         call = ''.join(f' {v}' for v in env.vars)
         st = f'{lname(self.cur)}.St'
         rl = LEANTYPE[self.rtype]
         name = f'{self.cur}.body{k}'
-        idx = f' ({index} : Nat)' if index else ''
+        idx = f' ({index} : {VARTYPE[index_type]})' if index else ''
         self.aux.append(f'def {name} (env : {self.D["env"]}){params}{idx} (st : {st}) : Py.Ctl {st} ({rl}) :=\n    {text}\n')
         cname = None
         if cond is not None:
